@@ -136,8 +136,16 @@ def verify_function(index, contracts, c, props_filter=None):
         ex.entry_views.append(A)
         results = ex.exec_block(st, body)
         if block:
-            from .state import Continue as _Cont
-            results = [(s_, NORMAL if isinstance(o_, _Cont) else o_) for s_, o_ in results]
+            from .state import Continue as _Cont, Break as _Brk
+            fixed = []
+            for s_, o_ in results:
+                if isinstance(o_, _Brk):
+                    s_.ghost["broke"] = True            # the block leaves its loop
+                    o_ = NORMAL
+                elif isinstance(o_, _Cont):
+                    o_ = NORMAL
+                fixed.append((s_, o_))
+            results = fixed
         res.paths = len(results)
         n_ret = 0
         for s2, oc in results:
@@ -169,6 +177,8 @@ def verify_function(index, contracts, c, props_filter=None):
                 res.covers.append((f"{ctx.unit}/return-path{n_ret}-reachable", list(s2.pc)))
             elif isinstance(oc, Raise):
                 e = oc.exc
+                if e.name in getattr(c, "may_raise", ()):
+                    continue                      # a permitted (nondeterministic) exceptional exit
                 if e.name in c._raises:
                     ctx.oblige(f"{ctx.unit}/raises:{e.name}-only-when/L{e.line}", s2,
                                c._raises[e.name](A), "raises", e.line)
